@@ -19,7 +19,7 @@ for l in log:
     if not subj.startswith('fix:'): continue
     for k,(p,d) in propmap.items():
         if k in subj:
-            kf['findings'].append({'property':p,'status':'fixed','commit':h,'key':'','what':'%s: %s' % (d, subj[len('fix: '):])})
+            kf['findings'].append({'property':p,'status':'fixed','commit':h,'key':'','what':'%s: %s' % (d, subj[len('fix: '):]),'line':'fixed: property=%s %s %s: %s' % (p,h,d,subj[len('fix: '):])})
             break
     else:
         print('UNMAPPED',l)
